@@ -311,10 +311,10 @@ class Engine(object):
             self.oblig(st, f"zerodiv@{line}", y != 0, line)
             st.assume(y != 0)
         x, y = smt.som(x), smt.som(y)
+        fd = z3.Function("fdiv", INT, INT, INT)
+        fm = z3.Function("fmod", INT, INT, INT)
         if getattr(self, "under_binder", 0):
             # inside a point-wise lifted array expression the witnesses must be functions of the element index
-            fd = z3.Function("fdiv", INT, INT, INT)
-            fm = z3.Function("fmod", INT, INT, INT)
             a_, b_ = z3.Ints("x_d y_d")
             ax = z3.ForAll([a_, b_], z3.Implies(b_ > 0, z3.And(a_ == b_ * fd(a_, b_) + fm(a_, b_), 0 <= fm(a_, b_),
                                                                 fm(a_, b_) < b_,
@@ -342,7 +342,9 @@ class Engine(object):
             q, r, fact, _keep = memo[key]
         else:
             q, r = smt.fresh("q"), smt.fresh("r")
-            fact = z3.Implies(y != 0, z3.And(x == smt.som(q * y) + r,
+            # the witnesses are the values of the (axiomatised) floor division/modulo functions: by uniqueness of
+            # integer division this adds nothing but a name, and it ties code-side `%` to spec-side `%`
+            fact = z3.Implies(y != 0, z3.And(x == smt.som(q * y) + r, z3.Implies(y > 0, z3.And(q == fd(x, y), r == fm(x, y))),
                                              z3.If(y > 0, z3.And(0 <= r, r < y), z3.And(y < r, r <= 0)),
                                              # redundant consequences (help the non-linear core)
                                              z3.Implies(z3.And(y > 0, x >= 0), z3.And(q >= 0, q <= x)),
@@ -369,6 +371,9 @@ class Engine(object):
         c = smt.conc_real(x)
         if c is not None:
             return z3.IntVal(int(c))
+        ie = smt.as_int_expr(x)
+        if ie is not None:
+            return smt.som(ie)  # an integer-valued real expression: int() is exact
         xs_ = smt.simp(x)
         # int(I * p/q) with an integer term I: exact integer arithmetic (truncation toward zero)
         num = None
